@@ -286,6 +286,10 @@ def jsonable(content: Any) -> Any:
     """
     if isinstance(content, (bytes, bytearray, memoryview)):
         return bytes(content).hex()
+    if isinstance(content, float) and (content != content or content in (float('inf'), float('-inf'))):
+        # json.dumps writes NaN / Infinity bare, which is not JSON (RFC 8259 section 6): a bandwidth TLV holding
+        # such a float made the event unreadable for a strict parser. As text they stay visible.
+        return str(content)
     if isinstance(content, dict):
         return {str(jsonable(key)): jsonable(value) for key, value in content.items()}
     if isinstance(content, (list, tuple)):
